@@ -52,7 +52,7 @@ def generate(r, tier):
     sc["prefix"] = ops.gen_history(r, prog, r.randint(0, 12), weights={"read": 6, "edge": 14, "save": 4, "load": 0, "restart": 2, "load_hand": 0}, sane=0.9)
     slots = {o[1] for o in sc["prefix"] if o[0] in ("save", "restart")}
     tgt = sc["prog2"] or prog
-    sc["used"] = ops.gen_history(r, tgt, r.randint(1, 6), weights={"read": 3, "save": 0, "load": 8 if slots else 0, "restart": 0, "stale_merge": 6}, sane=0.9,
+    sc["used"] = ops.gen_history(r, tgt, r.randint(1, 6), weights={"read": 3, "save": 0, "load": 8 if slots else 0, "restart": 0, "stale_merge": 5, "stale_chain": 5}, sane=0.9,
                                  presaved=slots) if r.random() < 0.45 else []
     for o in sc["used"]:
         if o[0] == "load" and r.random() < 0.5:
